@@ -70,6 +70,11 @@ class C03(InterpProp):
         if sorted(active) != sorted(info['slot1']['config']):
             res.violations.append('step %d: configuration %s is not the trace applied to the previous one %s'
                                   % (k, info['slot1']['config'], sorted(active)))
+        # run to completion: what the step leaves behind needs no further stabilisation
+        if info['slot1'].get('legal') is False and info['slot1']['config']:
+            res.violations.append('step %d: the macro step ended in %s, which is not stable (a compound state without '
+                                  'active child, or an orthogonal state with a region missing)'
+                                  % (k, info['slot1']['config']))
         tids = oracles.step_transitions(step)
         keys = [(-depth(trans[i].source), trans[i].source) for i in tids]
         if keys != sorted(keys):
